@@ -52,7 +52,7 @@ template <etl::size_t K>
     if constexpr (K == 0) {
         return first;
     } else {
-        nth_slice_specifier<K - 1>(rest...);
+        return nth_slice_specifier<K - 1>(rest...);
     }
 }
 
